@@ -104,7 +104,9 @@ def build_all(prop, cfg, log):
         targets = ([] if cfg.get("no_props") else ["theories/Props/%s.vo" % prop]) + ["theories/" + t for t in cfg.get("extra_targets", [])]
         # the modules the correspondence files import are always built, whether or not Props depends on them
         targets += ["theories/Base/Check.vo"] + ["theories/" + r.replace(".", "/") + ".vo" for r in cfg.get("requires", [])]
-        rc, out, dt = sh(["make", "-j16"] + targets, cwd=COQ, timeout=cfg.get("make_timeout", 1500))
+        # one make process for all targets (separate sub-makes could compile a shared dependency twice, concurrently)
+        sh(["make", "Makefile.coq"], cwd=COQ, timeout=300)
+        rc, out, dt = sh(["make", "-f", "Makefile.coq", "-j16"] + targets, cwd=COQ, timeout=cfg.get("make_timeout", 1500))
         log.append(("make", rc, dt, out[-6000:]))
         if rc != 0:
             m = re.search(r'File "\./(theories/[^"]+)", line (\d+)', out)
@@ -119,7 +121,7 @@ def build_all(prop, cfg, log):
                                   "obligation": "%s in %s" % (thm, vf)})
             # can the correspondence still run? it needs Base + Gen (+Model) only
             need = ["theories/Base/Check.vo"] + ["theories/" + r.replace(".", "/") + ".vo" for r in cfg.get("requires", [])]
-            rc2, out2, dt2 = sh(["make", "-j16"] + need, cwd=COQ, timeout=900)
+            rc2, out2, dt2 = sh(["make", "-f", "Makefile.coq", "-j16", "-k"] + need, cwd=COQ, timeout=900)
             log.append(("make(model only)", rc2, dt2, out2[-3000:]))
             if rc2 != 0:
                 res["gen_ok"] = False
